@@ -227,6 +227,10 @@ def run(rep, tier):
         rule_parse(rep, idx)
     except AnalysisBroken as e:
         rep.undecided('RA', 'literal-parsing', 'cannot interpret the literal path: %s' % e, 'hexasm.hpp hexasm::Lexer::readToken')
+    try:
+        rule_parse_directive(rep, idx)
+    except AnalysisBroken as e:
+        rep.undecided('RB', 'parse-directive', 'cannot interpret: %s' % e, 'hexasm.hpp hexasm::Parser::parseDirective')
     total_classes = 0
     values_covered = 0
     for m in spec_isa.IMMEDIATE_MNEMONICS:
@@ -263,6 +267,56 @@ def run(rep, tier):
     rep.extra['value_classes'] = total_classes
     rep.extra['operand_values_covered'] = values_covered
     rep.extra['partition'] = 'exact: every branch condition of numNibbles/getSize/emitProgramBin is uniform on each class'
+
+
+def rule_parse_directive(rep, idx):
+    """RB: the parser hands the literal to the instruction unchanged, for every immediate-taking mnemonic and both spellings."""
+    rep.rule('RB', 'Parser::parseDirective builds, for each of the 12 immediate-taking mnemonics followed by a literal n or -n, an InstrImm '
+             'with that mnemonic and exactly the value parseInteger yields -- no operand class (negative, >= 2^31, zero) is rejected or '
+             'altered on the way from the literal to the instruction', floor=12 * 6)
+    from . import c05
+    f = idx.func('hexasm::Parser::parseDirective')
+    toks = idx.enum('hexasm::Token')
+    U32 = (1 << 32) - 1
+
+    def i32(x):
+        x &= U32
+        return x - (1 << 32) if x >> 31 else x
+    cases = [('plain', 0, 0), ('plain', 1, INT_MAX), ('plain', INT_MAX + 1, U32), ('minus', 0, 0), ('minus', 1, INT_MAX), ('minus', INT_MAX + 1, INT_MAX + 1)]
+    for m in spec_isa.IMMEDIATE_MNEMONICS:
+        for sp, lo, hi in cases:
+            key = '%s %s[%d,%d]' % (m, '-' if sp == 'minus' else '', lo, hi)
+            B = c05.Builder(idx)
+            script = [toks['MINUS']] if sp == 'minus' else [toks['NUMBER']]
+            lex = Obj('hexasm::Lexer', {'value': IV(32, False, lo, hi, None, 'input'), 'lastToken': const(32, True, toks[m]),
+                                        'currentLineNumber': const(64, False, 0), 'currentCharNumber': const(64, False, 0)}, 'lexer')
+            base_hooks = B.I.hooks
+
+            def hooks(I, n, kind, name, did, obj, args, env, script=script, lex=lex, base_hooks=base_hooks):
+                if kind == 'method' and name == 'getNextToken':
+                    t = script.pop(0) if script else toks['END_OF_FILE']
+                    lex.fields['lastToken'] = const(32, True, t)
+                    return lex.fields['lastToken']
+                return base_hooks(I, n, kind, name, did, obj, args, env)
+            B.I.hooks = hooks
+            par = Obj('hexasm::Parser', {'lexer': lex}, 'parser')
+            where = pos(f.node) + ' hexasm::Parser::parseDirective'
+            try:
+                d = B.I.invoke(f, par, [])
+            except Thrown as e:
+                rep.add('RB', key, False, where, 'the operand is rejected (%s): no bytes are emitted for a value that fits in 32 bits' % (e.what,))
+                continue
+            except (NeedSplit, AnalysisBroken) as e:
+                rep.undecided('RB', key, 'parseDirective not interpreted: %s' % e, where)
+                continue
+            want = (i32(lo), i32(hi)) if sp == 'plain' else tuple(sorted((i32(-lo), i32(-hi))))
+            v = B.I.invoke(B.I.resolve_method(d, 'getValue', None), d, []) if isinstance(d, Obj) and B.I.resolve_method(d, 'getValue', None) else None
+            tk = d.fields.get('token') if isinstance(d, Obj) else None
+            ok = isinstance(d, Obj) and d.cls == 'hexasm::InstrImm' and isinstance(v, IV) and (v.lo, v.hi) == want and \
+                isinstance(tk, IV) and tk.concrete() and tk.lo == toks[m] and not B.I.ub
+            rep.add('RB', key, ok, where, 'InstrImm(%s, %r)' % (m, v) if ok else
+                    'builds %r with value %r, token %r (expected an InstrImm %s with a value in [%d,%d])%s' % (
+                        getattr(d, 'cls', d), v, tk, m, want[0], want[1], '; UB %s' % B.I.ub if B.I.ub else ''))
 
 
 def rule_parse(rep, idx):
